@@ -17,15 +17,17 @@ open Neumann.RelTx
 /-! ## finished transactions cannot be used again -/
 
 /-- After `commit` or `rollback` of an open transaction, and after ANY further sequence of
-    statements (including later `begin`s), every call that names the transaction answers
-    `TransactionNotFound` and leaves the state untouched. -/
+    statements (including later `begin`s), every call that names the transaction — the three
+    writing statements, `tx_select`, `commit`, `rollback` — answers `TransactionNotFound` and
+    leaves the state untouched. -/
 theorem finished_tx_unusable (s : State) (tx : Nat) (hlt : tx < s.nextTx) (hopen : gate s tx = none)
     (s' : State) (hfin : s' = (commit s tx).1 ∨ s' = (rollback s tx).1) (ops : List Op) :
     let sf := run s' ops
     commit sf tx = (sf, .err .txNotFound) ∧ rollback sf tx = (sf, .err .txNotFound) ∧
     (∀ t vals, txInsert sf tx t vals = (sf, .err .txNotFound)) ∧
     (∀ t c upd, txUpdate sf tx t c upd = (sf, .err .txNotFound)) ∧
-    (∀ t c, txDelete sf tx t c = (sf, .err .txNotFound)) := by
+    (∀ t c, txDelete sf tx t c = (sf, .err .txNotFound)) ∧
+    (∀ t c, txSelect sf tx t c = .err .txNotFound) := by
   have hg : Gone s' tx := by
     rcases hfin with h | h
     · subst h
@@ -39,26 +41,36 @@ theorem finished_tx_unusable (s : State) (tx : Nat) (hlt : tx < s.nextTx) (hopen
       rw [(foldl_applyUndo_fields _ (s, 0)).2.2.2.2.1]; exact hlt
   intro sf
   have hgate : gate sf tx = some .txNotFound := gate_of_gone (gone_run hg ops)
-  refine ⟨?_, ?_, ?_, ?_, ?_⟩
+  refine ⟨?_, ?_, ?_, ?_, ?_, ?_⟩
   · unfold commit; rw [hgate]
   · unfold rollback; rw [hgate]
   · intro t vals; unfold txInsert; rw [hgate]
   · intro t c upd; unfold txUpdate; rw [hgate]
   · intro t c; unfold txDelete; rw [hgate]
+  · intro t c; unfold txSelect; rw [hgate]
 
-/-- non-vacuity: an open transaction exists, and after its commit its id is refused -/
+/-- non-vacuity: an open transaction exists (and can read), and after its commit its id is refused -/
 example : let s := run s0 (setupIdx ++ [.begin])
-    1 < s.nextTx ∧ gate s 1 = none ∧ (step (step s (.commit 1)).1 (.txInsert 1 0 [2, 2])).2 = .err .txNotFound := by decide
+    1 < s.nextTx ∧ gate s 1 = none ∧ txSelect s 1 0 (.ge 0 0) = .rows [(0, [1, 1])] ∧
+    (step (step s (.commit 1)).1 (.txInsert 1 0 [2, 2])).2 = .err .txNotFound ∧
+    txSelect (step s (.commit 1)).1 1 0 .all = .err .txNotFound ∧
+    txSelect (step s (.rollback 1)).1 1 0 .all = .err .txNotFound := by decide
 
 /-- a transaction id that was never handed out is refused as well -/
 theorem unknown_tx_refused (s : State) (tx : Nat) (h : s.txs tx = none) :
     commit s tx = (s, .err .txNotFound) ∧ rollback s tx = (s, .err .txNotFound) ∧
-    (∀ t vals, txInsert s tx t vals = (s, .err .txNotFound)) := by
+    (∀ t vals, txInsert s tx t vals = (s, .err .txNotFound)) ∧
+    (∀ t c upd, txUpdate s tx t c upd = (s, .err .txNotFound)) ∧
+    (∀ t c, txDelete s tx t c = (s, .err .txNotFound)) ∧
+    (∀ t c, txSelect s tx t c = .err .txNotFound) := by
   have hg : gate s tx = some .txNotFound := by unfold gate; rw [h]
-  refine ⟨?_, ?_, ?_⟩
+  refine ⟨?_, ?_, ?_, ?_, ?_, ?_⟩
   · unfold commit; rw [hg]
   · unfold rollback; rw [hg]
   · intro t vals; unfold txInsert; rw [hg]
+  · intro t c upd; unfold txUpdate; rw [hg]
+  · intro t c; unfold txDelete; rw [hg]
+  · intro t c; unfold txSelect; rw [hg]
 
 /-! ## commit -/
 
